@@ -389,17 +389,26 @@ def pairs_for(tier, seed=0):
             S = {o: True for o in OPTIONS if rnd.random() < 0.4}
             Lo = dict(S)
             Lo.update({o: True for o in OPTIONS if rnd.random() < 0.5})
-            out.append((S, Lo))
+            out.append((S, Lo, 'seeded'))
     seen, uniq = set(), []
-    for S, Lo in out:
+    for pr in out:
+        S, Lo = pr[0], pr[1]
         k = (name_of(S), name_of(Lo))
         if k[0] != k[1] and k not in seen:
             seen.add(k)
-            uniq.append((S, Lo))
+            uniq.append(pr)
     return uniq
 
 
 def _one_pair(pair):
+    out = _one_pair0(pair[:2])
+    if len(pair) > 2:
+        for o in out:
+            o['seed_dependent'] = True      # pair drawn with VERIF_SEED: not recorded in EXPECTED.json
+    return out
+
+
+def _one_pair0(pair):
     S_opts, L_opts = pair
     t0 = time.time()
     nm = '%s<=%s' % (name_of(S_opts), name_of(L_opts))
@@ -442,7 +451,7 @@ def c17_obligations(tier, seed=0):
     pairs = pairs_for(tier, seed)
     # build every parser once, before forking (16 builder subprocesses at a time)
     from multiprocessing.pool import ThreadPool
-    todo = {json.dumps(o, sort_keys=True): o for pr in pairs for o in pr}
+    todo = {json.dumps(o, sort_keys=True): o for pr in pairs for o in pr[:2]}
     with ThreadPool(16) as tp:
         tp.map(buildable, list(todo.values()))
     if len(pairs) > 24:
